@@ -436,22 +436,36 @@ func (m *minimiser) minimise(v *proto.Violation) (*props.Case, []props.Sched, *a
 			}
 			return false
 		})
-		// zero entries
-		for i := range tape {
-			if tape[i] == 0 {
-				continue
-			}
-			old := tape[i]
-			tape[i] = 0
-			a := m.try(&proto.Request{Case: cur, GenTape: tape})
-			if a.ok {
-				if a.rs.Case != nil {
-					cur = a.rs.Case
+		// lower entries (0 is the simplest choice of every generator decision), then delete once more
+		for pass := 0; pass < 2; pass++ {
+			for i := range tape {
+				for _, nv := range []uint32{0, tape[i] / 2} {
+					if tape[i] <= nv {
+						continue
+					}
+					old := tape[i]
+					tape[i] = nv
+					a := m.try(&proto.Request{Case: cur, GenTape: tape})
+					if a.ok {
+						if a.rs.Case != nil {
+							cur = a.rs.Case
+						}
+						best = &a
+						break
+					}
+					tape[i] = old
 				}
-				best = &a
-			} else {
-				tape[i] = old
 			}
+			tape = ddmin(tape, func(cand []uint32) bool {
+				a := m.try(&proto.Request{Case: cur, GenTape: nonNil(cand)})
+				if a.ok {
+					if a.rs.Case != nil {
+						cur = a.rs.Case
+					}
+					best = &a
+				}
+				return a.ok
+			})
 		}
 		if best != nil && best.died != "" && best.rs.Case == nil {
 			// crashed while regenerating+running: ask for the case description
@@ -790,7 +804,17 @@ func doCheck(prop, tier string, seed uint64, nworkers, maxSec int, noMin bool) i
 		race = raceLane(tier, seed)
 		all.harness = append(all.harness, race.Harness...)
 	}
-	sort.Strings(order)
+	// smallest failing cases first: they get the replay files
+	size := func(k string) int {
+		c := groups[k].v.Case
+		return len(c.Src) + 40*len(c.History) + 20*len(c.Aliases)
+	}
+	sort.Slice(order, func(i, j int) bool {
+		if si, sj := size(order[i]), size(order[j]); si != sj {
+			return si < sj
+		}
+		return order[i] < order[j]
+	})
 	nviol := 0
 	knownHits := map[string]int{}
 	os.MkdirAll(filepath.Join(outRoot, "replays"), 0o755)
@@ -828,7 +852,7 @@ func doCheck(prop, tier string, seed uint64, nworkers, maxSec int, noMin bool) i
 		}
 		if !noMin {
 			jc := &judgeClient{lane: lane}
-			m := &minimiser{j: jc, prop: prop, tier: tier, seed: seed, idx: g.v.Idx, class: g.v.Finding.Class, budget: 400, deadline: time.Now().Add(60 * time.Second), textOK: textShrinkable(prop, g.v.Case)}
+			m := &minimiser{j: jc, prop: prop, tier: tier, seed: seed, idx: g.v.Idx, class: g.v.Finding.Class, budget: 1200, deadline: time.Now().Add(90 * time.Second), textOK: textShrinkable(prop, g.v.Case)}
 			vv := g.v
 			c, scheds, a := m.minimise(&vv)
 			jc.close()
